@@ -903,7 +903,10 @@ theorem gates_present_in_tree :
     SdnsVerif.Gen.C01.shape_wildcard_proof_from_filtered_authority = true ∧
     SdnsVerif.Gen.C01.shape_validated_denial_keeps_signer_zone_only = true ∧
     SdnsVerif.Gen.C01.shape_dname_target_ad_anded_whatever_the_target_carries = true ∧
-    SdnsVerif.Gen.C01.shape_soa_beside_ns_goes_through_allowlist = true := by
+    SdnsVerif.Gen.C01.shape_soa_beside_ns_goes_through_allowlist = true ∧
+    SdnsVerif.Gen.C01.shape_zone_security_judged_for_serving_zone_answer = true ∧
+    SdnsVerif.Gen.C01.shape_zone_security_judged_for_serving_zone_authority = true ∧
+    SdnsVerif.Gen.C01.shape_zone_security_judged_for_serving_zone_validateDelegation = true := by
   decide
 
 /-! ## a zone is treated as unsigned only on proof -/
@@ -961,6 +964,38 @@ theorem delegation_nsec_proof {delegation : Name} {nsecs : List DelegNSEC}
 -- all eight subsets of {NS, DS, SOA} at the delegation point: exactly {NS} proves it
 example : ∀ ns ds soa : Bool, (verifyDelegationNSEC ["test", "victim"] [⟨["test", "victim"], ns, ds, soa⟩] = .ok) =
     (ns = true ∧ ds = false ∧ soa = false) := by decide
+
+/-- **Who may deny what at a name** (RFC 6840 §4.1): the exact-owner NODATA proof is accepted only from
+a record without the type and without CNAME that SPEAKS for the type — the parent's delegation-point
+NSEC (NS set, SOA clear) speaks for DS only, the child's apex NSEC (SOA set) never for DS. -/
+theorem nodata_exact_denial {isDS : Bool} {l : List (Name × Bool × Bool × Bool)} {q : Name}
+    (h : verifyNodataExact isDS l q = some .ok) :
+    ∃ soa ns, (q, false, soa, ns) ∈ l ∧ (isDS = true → soa = false) ∧ (isDS = false → ns = true → soa = true) := by
+  induction l with
+  | nil => simp [verifyNodataExact] at h
+  | cons x t ih =>
+    obtain ⟨owner, ty, soa, ns⟩ := x
+    unfold verifyNodataExact at h
+    split at h
+    · obtain ⟨s', n', hm, h1, h2⟩ := ih h
+      exact ⟨s', n', by simp [hm], h1, h2⟩
+    · rename_i ho
+      have hq : owner = q := by simpa using ho
+      split at h; · cases h
+      rename_i hty
+      split at h; · cases h
+      rename_i hds
+      split at h; · cases h
+      rename_i hns
+      subst hq
+      refine ⟨soa, ns, ?_, ?_, ?_⟩
+      · have : ty = false := by simpa using hty
+        simp [this]
+      · intro hd; subst hd; cases soa <;> simp_all
+      · intro hd hn; subst hd; subst hn; cases soa <;> simp_all
+
+example : verifyNodataExact false [(["example", "child"], false, false, true)] ["example", "child"] = some .badDelegation := by decide
+example : verifyNodataExact true [(["example", "child"], false, false, true)] ["example", "child"] = some .ok := by decide
 
 /-- **`insecure_only_on_proof` (answer / authority).**  With CD=0, unsigned data is accepted only
 when (a) the response carries no usable signature and `isZoneSecure` said the zone has no DS
@@ -1035,6 +1070,24 @@ theorem only_dataless_errors_are_relayed {rcode nAns nNs : Nat} {minimized : Boo
 example : dispatch 3 0 0 false = .authority := by decide
 example : dispatch 0 0 0 false = .authority := by decide
 example : dispatch 5 0 0 false = .relay := by decide
+
+/-- **The choice of signer cannot downgrade a signed zone.**  "Is the zone signed?" is one fact about the
+zone that served the response (regenerated shape facts `shape_zone_security_judged_for_serving_zone_*`:
+`isZoneSecure(…, zone)`, no argument taken from the candidate signer), so every candidate of the loop
+sees the same verdict `zs`.  If the serving zone is signed (`zs = true`) then NO candidate signer —
+in particular not an RRSIG SignerName rewritten to a non-delegation name below the zone, for which
+the DS lookup genuinely comes back empty — gets the response accepted as insecure: the outcome is a
+validated one or an error. -/
+theorem signed_zone_not_downgraded_by_signer_choice {on anchorsOk : Bool} {qname : Name} {cands : List Cand} {a b : Bool}
+    (hne : cands ≠ []) (hzs : ∀ c ∈ cands, c.zoneSecure = true) :
+    answerDecision on anchorsOk false qname cands a b ≠ .acceptedInsecure := by
+  intro h
+  rcases insecure_only_on_proof h with ⟨he, _⟩ | ⟨c, hc, _, _, hz⟩
+  · exact hne he
+  · rw [hzs c hc] at hz; cases hz
+
+example : answerDecision true true false ["test", "zone", "www"]
+    [{ signer := ["test", "zone", "www"], findDS := some [], zoneSecure := true, verify := .verified }] true false = .fail .dsrecords := by decide
 
 /-- the same for the delegation path: the child is treated as insecure only for one of the
 listed reasons; in particular never because a signer outside the ancestry of the name was offered. -/
